@@ -54,3 +54,16 @@ Proof.
   intros c n prog x H1 H2 H3 H4 H5. pose proof (step_rest c n prog x H1 H2 H3 H4 H5) as [_ [_ [Hp [Hw Hd]]]]. auto.
 Qed.
 Print Assumptions C12_percall_exited_at_rest.
+
+(* and the resolver in front of the per-call-process executor *)
+Theorem C12_resolver_percall_exited_at_rest :
+  forall c n prog d,
+    dinner c = IStep -> StepLive.fits (dx c) -> (forall i, xraises (dx c) i = false) ->
+    wf_prog n prog -> wf_deps c n -> dreach c (dinit n prog) d ->
+    denabled c d = [] ->
+    (forall p, In p (ps (dbase d)) -> palive p = false) /\ (forall w, In w (ws (dbase d)) -> wdone w = true) /\ rp d = RDone.
+Proof.
+  intros c n prog d H1 H2 H3 H4 H5 H6 H7.
+  pose proof (dep_rest_step c n prog d H1 H2 H3 H4 H5 H6 H7) as [_ [_ [Hp [Hw Hr]]]]. auto.
+Qed.
+Print Assumptions C12_resolver_percall_exited_at_rest.
